@@ -135,7 +135,8 @@ Lemma postn_read_time : postn (fun t n => elen (enc_time t) n) read_time.
 Proof.
   unfold read_time. eapply postn_bind; [apply postn_read_n|]. intros d n1 [Hd ->]. cbv zeta.
   assert (Hl : length d = 8%nat) by (unfold blen in Hd; lia).
-  destruct (unle d =? 0); apply postn_ret; unfold enc_time; apply elen_le; lia.
+  destruct (unle d =? 0); [apply postn_ret; unfold enc_time; apply elen_le; lia|].
+  destruct ((to_signed 8 (unle d) - time_offset) * 100 =? zero_time_ns); apply postn_ret; unfold enc_time; apply elen_le; lia.
 Qed.
 
 Ltac elen_calc := cbn [elen eapp]; repeat (progress (rewrite ?app_length, ?le_length; cbn [length])); lia.
